@@ -204,6 +204,42 @@ def gen_fanin_spec(rng: random.Random, raise_incomplete: bool = False) -> dict:
     return spec
 
 
+def gen_span_spec(rng: random.Random) -> dict:
+    """fan-in of 2..3 whole rounds of THREE types into a gated collecting step with 2..3 workers, where one
+    invocation (the straggler: an event of a later round, sent early, marked k=9) tends to be held at its gate
+    while the other workers complete a whole round and start filling the next: when it finally returns, its
+    snapshot is stale AND no prefix of the live buffer (the buffer was deleted and refilled in between), so the
+    re-run has to take the live buffer as it is.  `hold_k` biases the scheduler (8:1) against releasing the
+    straggler; the recorded action indices replay without the bias."""
+    rounds = rng.choice([2, 2, 3])
+    nw = rng.randint(2, 3)
+    tys = [5, 6, 7]
+    evs = [(t, r) for r in range(rounds) for t in tys]
+    # round 0 first (shuffled), later rounds after it (shuffled within the rest) ...
+    first = [e for e in evs if e[1] == 0]
+    rest = [e for e in evs if e[1] > 0]
+    rng.shuffle(first)
+    rng.shuffle(rest)
+    # ... except the straggler: an event of round 1, mostly sent as the first QUEUED event (position nw): it
+    # starts on the slot freed by the first buffered event, i.e. with a one-element snapshot of round 0
+    strag = rng.choice([e for e in rest if e[1] == 1])
+    rest.remove(strag)
+    order = first + rest
+    order.insert(nw if rng.random() < 0.75 else rng.randint(0, len(order)), strag)
+    sends = [["send", t, None, 9 if (t, r) == strag else r] for (t, r) in order]
+    start = {"name": "s00", "accepts": [0], "nw": 1, "retry": None, "script": sends + [["ret", "none"]]}
+    coll_script: list = [["gate"], ["collect", list(tys)] + ([rng.choice(["b01", "b02"])] if rng.random() < 0.15 else [])]
+    coll_script.append(["ret", rng.choice(["8", "8", "none"])])
+    coll = {"name": "s03", "accepts": list(tys), "nw": nw, "retry": None, "script": coll_script}
+    sink = {"name": "s05", "accepts": [8], "nw": rng.randint(1, 2), "retry": None, "script": [["ret", "none"]]}
+    steps = [start, coll, sink]
+    rng.shuffle(steps)
+    spec: dict[str, Any] = {"steps": steps, "externals": [], "hold_k": 9}
+    if rng.random() < 0.25:
+        spec["eq_events"] = True
+    return spec
+
+
 def gen_multicollect_spec(rng: random.Random) -> dict:
     """fan-in into a multi-worker collecting step whose body calls collect_events on the SAME buffer two
     to four times per invocation: one result tick then carries several AddCollectedEvent for one buffer.
@@ -434,6 +470,8 @@ _general = gen_spec
 
 def gen_spec(rng: random.Random, **kw: Any) -> dict:  # type: ignore[no-redef]
     r = rng.random()
+    if kw.get("family") == "span":
+        return gen_span_spec(rng)
     if kw.get("family") == "general" or r < 0.55:
         kw.pop("family", None)
         kw.pop("raise_incomplete", None)
